@@ -650,6 +650,13 @@ func (v *Verifier) evalCall(env *Env, e *Expr) *Val {
 			r = a.Term
 		}
 		return intVal(Select(hs.ghostArr("wg", SInt), r))
+	case "wgref":
+		// wgref(W): the identity of a WaitGroup (for the ghost relations wgpending / wgreturned)
+		a := v.syncRef(env, args[0])
+		if env.X != nil {
+			return &Val{T: types.Typ[types.UnsafePointer], Term: env.X.refOf(a)}
+		}
+		return &Val{T: types.Typ[types.UnsafePointer], Term: a.Term}
 	case "wgtoken":
 		a := v.syncRef(env, args[0])
 		var r *Term
